@@ -12,6 +12,9 @@ def run(ctx, race, name="sched.jsonl"):
     rc, out, p, dt = C.go_test_overlay(ctx.work, "./server/", "TestVerifServerSchedules", OVERLAY, name, ctx.seed, ctx.tier,
                                        race=race, timeout=3000 if ctx.thorough else 900)
     rows = [r for r in C.read_jsonl(p) if r.get("kind") == "schedule"]
+    for r in rows:
+        r["events"] = r.get("events") or []
+        r["results"] = r.get("results") or []
     races = race_reports(out)
     if not rows or (rc != 0 and not races):
         raise RuntimeError("server schedule harness did not run: rc=%s\n%s" % (rc, out[-2500:]))
